@@ -4,8 +4,18 @@ Domain: client path strings (str, as the SFTP server hands them over after get_t
   * the grammar ( '/' | '//' | '///' | '.' | '..' | '...' | name | 'name.' | '..name' | '.name' | '' )*
     (<= 40 tokens, joined with 1-3 separators, optional leading/trailing separators);
   * arbitrary unicode text (NUL, backslashes, surrogates, combining marks) optionally spliced
-    with '/', '.', '..' tokens.
-Oracle for out = SFTPServerInterface(server).canonicalize(path):
+    with '/', '.', '..' tokens;
+  * SCALE: run-length built paths - 1-4 blocks (segment x n) with n = 2^e .. 2^(e+1)-1, e uniform in 0..13 (quick) /
+    0..17 (thorough), segments './', '/', '//', 'a/', 'a/../', '../', bare 'a' / '.' / '..' (-> very long names) or any
+    grammar token + '/', followed by a grammar tail: hundreds to 10^5 separators / components / characters (harmless
+    prefixes before a climbing tail, deep descents followed by deeper climbs, ...), far beyond any small constant;
+  * CALL CONTEXT (the statement says "any client-supplied path" - the result must not depend on what else the
+    object is asked at the same time): 2-3 threads x 1-3 paths canonicalised on ONE shared instance
+      - deterministically under vlib.sched: only the baton holder runs, switch points = every bytecode instruction
+        executed in paramiko/sftp_si.py (sys.settrace + f_trace_opcodes), schedule = generated preemption list;
+      - real threads with sys.setswitchinterval(1e-6) hammering one instance (small in quick, larger in thorough;
+        collect-then-report, no verdict depends on timing: every single result is judged by the same predicate).
+Oracle for out = SFTPServerInterface(server).canonicalize(path) (every call, in every context):
   (a) out is a str that starts with '/';
   (b) no '/'-separated component of out equals '.' or '..';
   (c) out has no empty component, except that exactly two leading slashes are allowed
@@ -15,16 +25,26 @@ Oracle for out = SFTPServerInterface(server).canonicalize(path):
       os.path.commonpath([R, os.path.normpath(R + out)]) == R.
 """
 import os
+import sys
+import threading
 
 from hypothesis import strategies as st
+
+from vlib import sched as S
 
 PROPERTY = "C34"
 LEVEL = "exploration"
 RULE = (
     "hypothesis-generated path strings: token grammar over '/', '//', '.', '..', names, 'name.', '..name', '' with repeated "
-    "separators (<= 40 tokens) plus arbitrary unicode/NUL/backslash text spliced with traversal tokens; non-trivial = the path "
-    "contains at least one '..' component and at least one other non-empty component (a traversal attempt that has to be resolved); "
-    "distinct by SHA-1 of the path string"
+    "separators (<= 40 tokens) plus arbitrary unicode/NUL/backslash text spliced with traversal tokens; scale: run-length built paths "
+    "(1-4 blocks of a segment repeated 2^e..2^(e+1)-1 times, e<=13 quick / <=17 thorough, + grammar tail: up to ~10^5 separators / "
+    "components / name characters); histories of 2-5 raw or result-derived paths on one instance; concurrency: 2-3 threads x 1-3 paths on "
+    "ONE shared instance under the deterministic baton scheduler (switch point = every bytecode instruction executed in sftp_si.py, "
+    "generated preemption list <= 3 preemptions) and real-thread stress at switch interval 1e-6; every single result is judged by the "
+    "same validity predicate; non-trivial = the path contains at least one '..' component and at least one other non-empty component "
+    "(a traversal attempt that has to be resolved) / history of >= 2 steps / concurrent case in which a thread was preempted inside "
+    "sftp_si.py (calls really overlapped) / stress case with >= 2 threads; distinct by SHA-1 of the case (path string, run-length "
+    "description, history, threads+schedule)"
 )
 
 ROOTS = ["/srv/sftp", "/", "/home/foo", "/a/b/c/d"]
@@ -75,6 +95,33 @@ def wild_path(draw):
 
 case_st = st.one_of(grammar_path(), grammar_path(), wild_path())
 
+# ---- scale dimension: run-length built paths (the case stores the description, not the string) --------------------
+SEGS = ["./", "/", "//", "a/", "a/../", "../", "a/./", ".//", "a/b/../", "../a/", "a", ".", "..", "a/b/c/", "..//"]
+
+
+def long_path(max_exp):
+    seg = st.one_of(st.sampled_from(SEGS), st.sampled_from(SEGS).map(lambda v: v), token.map(lambda t: t + "/"))
+    count = st.integers(0, max_exp).flatmap(lambda e: st.integers(2 ** e, 2 ** (e + 1) - 1))
+    return st.fixed_dictionaries(
+        {
+            "lead": st.sampled_from(["", "", "/", "//", "///"]),
+            "blocks": st.lists(st.tuples(seg, count), min_size=1, max_size=4),
+            "tail": grammar_path(),
+        }
+    )
+
+
+def build_long(case):
+    return case["lead"] + "".join(seg * int(n) for seg, n in case["blocks"]) + case["tail"]
+
+
+def _size_class(path):
+    n = path.count("/")
+    for lim in (40, 256, 4096, 65536):
+        if n <= lim:
+            return "separators:<=%d" % lim
+    return "separators:>65536"
+
 
 def _walk(root_comps, path):
     """Independent resolution: returns (escaped, depth_below_root_min)."""
@@ -95,6 +142,63 @@ def _walk(root_comps, path):
         else:
             stack.append(c)
     return escaped
+
+
+def verdict(path, out):
+    """The validity predicate of the statement for ONE result: None, or (clause, bucket, detail).  Pure."""
+    kind = "relative-input" if not path.startswith("/") else "absolute-input"
+    shown = "canonicalize(%s) = %s" % (_abbr(path), _abbr(out))
+    if not isinstance(out, str) or not out.startswith("/"):
+        return ("not-absolute", kind, shown)
+    comps = out.split("/")
+    for c in comps:
+        if c in (".", ".."):
+            return ("dot-component", "%s:%s" % (c, kind), shown)
+    if out not in ("/", "//"):  # POSIX normpath keeps exactly two leading slashes, also for the bare root
+        body = out[2:] if (out.startswith("//") and not out.startswith("///")) else out[1:]
+        if body == "" or "" in body.split("/"):
+            return ("empty-component", "leading" if out.startswith("///") else "inner-or-trailing", shown)
+    for root in ROOTS:
+        rc = [c for c in root.split("/") if c]
+        joined = root + out
+        if _walk(rc, out):
+            return ("escapes-root", "stack-walk", "root %r + %s" % (root, _abbr(out)))
+        try:
+            common = os.path.commonpath([root, os.path.normpath(joined)])
+        except ValueError as e:
+            return ("escapes-root", "commonpath-raises", "root %r + %s: %r" % (root, _abbr(out), e))
+        if common != root:
+            return ("escapes-root", "commonpath", "root %r + %s -> %s, common %r" % (root, _abbr(out), _abbr(os.path.normpath(joined)), common))
+    return None
+
+
+def _abbr(v):
+    r = repr(v)
+    return r if len(r) <= 300 else "%s...[%d chars]...%s" % (r[:120], len(r), r[-160:])
+
+
+def path_classes(path):
+    comps_in = path.split("/")
+    has_dd = ".." in comps_in
+    nontrivial = has_dd and any(c not in ("", ".", "..") for c in comps_in)
+    classes = ["absolute" if path.startswith("/") else "relative"]
+    if has_dd:
+        classes.append("has-dotdot")
+        # leading traversal: more '..' than names before it somewhere in the string
+        depth = 0
+        for c in comps_in:
+            if c == "..":
+                depth -= 1
+                if depth < 0:
+                    classes.append("dotdot-above-start")
+                    break
+            elif c not in ("", "."):
+                depth += 1
+    if "//" in path:
+        classes.append("repeated-sep")
+    if "\x00" in path:
+        classes.append("nul")
+    return nontrivial, classes
 
 
 DERIVE = ["{prev}/..", "{prev}/.", "{dir}/..", "{dir}/.", "{dir}/{name}", "{prev}/{name}/..", "{dir}//..", "{prev}"]
@@ -121,30 +225,13 @@ def execute_seq(ctx, steps):
         prev = out
 
 
-def execute(ctx, path, si=None, history=None):
+def execute(ctx, path, si=None, history=None, jcase=None, extra=()):
     from paramiko.sftp_si import SFTPServerInterface
 
-    comps_in = path.split("/")
-    has_dd = ".." in comps_in
-    nontrivial = has_dd and any(c not in ("", ".", "..") for c in comps_in)
-    classes = ["absolute" if path.startswith("/") else "relative"]
-    if has_dd:
-        classes.append("has-dotdot")
-        # leading traversal: more '..' than names before it somewhere in the string
-        depth = 0
-        for c in comps_in:
-            if c == "..":
-                depth -= 1
-                if depth < 0:
-                    classes.append("dotdot-above-start")
-                    break
-            elif c not in ("", "."):
-                depth += 1
-    if "//" in path:
-        classes.append("repeated-sep")
-    if "\x00" in path:
-        classes.append("nul")
-    jcase = {"path": path}
+    nontrivial, classes = path_classes(path)
+    classes.extend(extra)
+    if jcase is None:
+        jcase = {"path": path}
     if history is not None and len(history) > 1:
         jcase = {"history": history}
         classes.append("history:step-%d-on-same-instance" % len(history))
@@ -158,46 +245,207 @@ def execute(ctx, path, si=None, history=None):
     except Exception as e:
         ctx.violation("canonicalize-raises", type(e).__name__, jcase, repr(e))
         return None
-    if not isinstance(out, str) or not out.startswith("/"):
-        ctx.violation("not-absolute", "relative-input" if not path.startswith("/") else "absolute-input", jcase, "canonicalize(%r) = %r" % (path, out))
+    v = verdict(path, out)
+    if v is not None:
+        ctx.violation(v[0], v[1], jcase, v[2])
         return None
-    comps = out.split("/")
-    for c in comps:
-        if c in (".", ".."):
-            ctx.violation("dot-component", "%s:%s" % (c, "relative-input" if not path.startswith("/") else "absolute-input"), jcase, "canonicalize(%r) = %r" % (path, out))
-            return None
-    if out not in ("/", "//"):  # POSIX normpath keeps exactly two leading slashes, also for the bare root
-        body = out[2:] if (out.startswith("//") and not out.startswith("///")) else out[1:]
-        if body == "" or "" in body.split("/"):
-            ctx.violation("empty-component", "leading" if out.startswith("///") else "inner-or-trailing", jcase, "canonicalize(%r) = %r" % (path, out))
-            return None
-    for root in ROOTS:
-        rc = [c for c in root.split("/") if c]
-        joined = root + out
-        if _walk(rc, out):
-            ctx.violation("escapes-root", "stack-walk", jcase, "root %r + %r" % (root, out))
-            return None
-        try:
-            common = os.path.commonpath([root, os.path.normpath(joined)])
-        except ValueError as e:
-            ctx.violation("escapes-root", "commonpath-raises", jcase, "root %r + %r: %r" % (root, out, e))
-            return None
-        if common != root:
-            ctx.violation("escapes-root", "commonpath", jcase, "root %r + %r -> %r, common %r" % (root, out, os.path.normpath(joined), common))
-            return None
     return out
+
+
+def execute_long(ctx, case):
+    path = build_long(case)
+    extra = ["scale:" + _size_class(path), "scale:longest-name<=%s" % _len_class(max(len(c) for c in path.split("/")))]
+    # a harmless prefix (net depth never below the start) of > 40 separators followed by a climbing tail
+    execute(ctx, path, jcase={"long": case}, extra=extra)
+
+
+def _len_class(n):
+    for lim in (8, 255, 4096, 65536):
+        if n <= lim:
+            return str(lim)
+    return "inf"
+
+
+# ---- call context: one instance, several threads ------------------------------------------------------------------
+
+
+class _OpSched(S.Scheduler):
+    """vlib.sched.Scheduler with a switch point at every bytecode instruction (not only every line) executed in the
+    traced files: an interleaving between two sub-expressions of one line (store ... call ... load) is reachable."""
+
+    def _gtrace(self, frame, event, arg):
+        r = S.Scheduler._gtrace(self, frame, event, arg)
+        if r is not None:
+            frame.f_trace_opcodes = True
+            frame.f_trace_lines = False
+        return r
+
+    def _ltrace(self, frame, event, arg):
+        if event == "opcode":
+            co = frame.f_code
+            self.yield_point(("op", os.path.basename(co.co_filename), co.co_name, frame.f_lasti))
+        return self._ltrace
+
+
+short_path = st.one_of(
+    st.sampled_from(["x", "/x", "../secret", "/", "", "a/b", "/a/../..", "..", "//x", "./."]),
+    st.lists(st.sampled_from(["..", ".", "a", "b", ""]), min_size=0, max_size=5).flatmap(
+        lambda toks: st.sampled_from(["", "/", "//"]).map(lambda lead: lead + "/".join(toks))
+    ),
+    grammar_path(),
+)
+
+conc_st = st.fixed_dictionaries(
+    {
+        "threads": st.lists(st.lists(short_path, min_size=1, max_size=3), min_size=2, max_size=3),
+        "sched": S.schedule_strategy(max_pre=3, max_gap=70, max_forced=4, width=4),
+    }
+)
+
+
+def execute_conc(ctx, case):
+    """2-3 threads call canonicalize on ONE instance; deterministic instruction-level interleaving."""
+    from paramiko import sftp_si
+
+    threads = case["threads"]
+    si = sftp_si.SFTPServerInterface(None)
+    s = _OpSched(S.strategy_from_case(case["sched"]), trace_files={sftp_si.__file__: None}, max_steps=50000)
+    S.coopify(s, si)
+    results = [[None] * len(t) for t in threads]
+
+    def mk(i, paths):
+        def body():
+            for j, p in enumerate(paths):
+                try:
+                    results[i][j] = ("ok", si.canonicalize(p))
+                except Exception as e:
+                    results[i][j] = ("exc", e)
+
+        return body
+
+    for i, paths in enumerate(threads):
+        s.spawn("t%d" % i, mk(i, paths))
+    res = s.run()
+    pre = [sw for sw in res.switches if sw[4] and isinstance(sw[3], tuple) and sw[3][0] == "op"]
+    flat = [p for t in threads for p in t]
+    mixed = any(p.startswith("/") for p in flat) and any(not p.startswith("/") for p in flat)
+    classes = [
+        "concurrent:threads-%d" % len(threads),
+        "concurrent:preempted-inside-sftp_si-%s" % (len(pre) if len(pre) < 3 else "3+"),
+        "concurrent:calls-%d" % len(flat),
+    ]
+    if mixed:
+        classes.append("concurrent:absolute-and-relative-paths-in-flight")
+    if any(path_classes(p)[0] for p in flat):
+        classes.append("concurrent:traversal-path-in-flight")
+    ctx.case(case, bool(pre), classes)
+    if res.outcome != "ok":
+        # no blocking primitive is involved in the unchanged code; whatever stops the calls from finishing is reported
+        ctx.violation("canonicalize-does-not-return", "concurrent:%s" % res.outcome, case, "waits=%r" % (res.waits,))
+        return
+    for i, paths in enumerate(threads):
+        for j, p in enumerate(paths):
+            r = results[i][j]
+            if r is None:
+                continue
+            if r[0] == "exc":
+                ctx.violation("canonicalize-raises", "%s:concurrent-on-one-instance" % type(r[1]).__name__, case, "thread %d call %d %s: %r" % (i, j, _abbr(p), r[1]))
+                return
+            v = verdict(p, r[1])
+            if v is not None:
+                ctx.violation(v[0], v[1] + ":concurrent-on-one-instance", case, "thread %d call %d: %s; preempted at %r" % (i, j, v[2], [sw[3] for sw in pre]))
+                return
+
+
+stress_st = st.fixed_dictionaries(
+    {
+        "stress": st.lists(st.lists(short_path, min_size=1, max_size=6), min_size=2, max_size=4),
+        "rounds": st.sampled_from([50, 200, 800]),
+    }
+)
+
+
+def execute_stress(ctx, case):
+    """Real threads, one instance, tiny switch interval.  Collect-then-report; the verdict for every single result is the
+    timing-free validity predicate (a miss proves nothing, a hit is a hit)."""
+    from paramiko.sftp_si import SFTPServerInterface
+
+    lists = case["stress"]
+    rounds = int(case["rounds"])
+    si = SFTPServerInterface(None)
+    bad = []
+    ok = set()
+    start = threading.Barrier(len(lists))
+
+    def body(paths):
+        start.wait()
+        for _ in range(rounds):
+            for p in paths:
+                if bad:
+                    return
+                try:
+                    out = si.canonicalize(p)
+                except Exception as e:
+                    bad.append((p, None, e))
+                    return
+                if (p, out) in ok:
+                    continue
+                v = verdict(p, out)
+                if v is None:
+                    ok.add((p, out))
+                else:
+                    bad.append((p, out, v))
+                    return
+
+    old = sys.getswitchinterval()
+    ts = [threading.Thread(target=body, args=(paths,), daemon=True) for paths in lists]
+    sys.setswitchinterval(1e-6)
+    try:
+        for t in ts:
+            t.start()
+        for t in ts:
+            t.join()
+    finally:
+        sys.setswitchinterval(old)
+    flat = [p for t in lists for p in t]
+    classes = ["stress:threads-%d" % len(lists), "stress:rounds-%d" % rounds]
+    if any(p.startswith("/") for p in flat) and any(not p.startswith("/") for p in flat):
+        classes.append("stress:absolute-and-relative-paths-in-flight")
+    ctx.case(case, True, classes)
+    ctx.count("stress:calls", rounds * len(flat))
+    for p, out, v in bad[:1]:
+        if out is None and isinstance(v, Exception):
+            ctx.violation("canonicalize-raises", "%s:concurrent-on-one-instance" % type(v).__name__, case, "%s: %r" % (_abbr(p), v))
+        else:
+            ctx.violation(v[0], v[1] + ":concurrent-on-one-instance", case, "real threads: " + v[2])
 
 
 def run(ctx):
     ctx.set_budget(60, 840)
-    ctx.explore(case_st, lambda c: execute(ctx, c), ctx.scale(5000, 100000))
+    quick = ctx.tier == "quick"
+    ctx.explore(case_st, lambda c: execute(ctx, c), ctx.scale(3500, 100000))
     name = st.text(alphabet="ab.", min_size=1, max_size=3)
     step = st.one_of(st.tuples(st.just("raw"), case_st), st.tuples(st.just("derive"), st.integers(0, len(DERIVE) - 1), name))
-    ctx.explore(st.lists(step, min_size=2, max_size=5), lambda c: execute_seq(ctx, c), ctx.scale(1500, 40000), seed_offset=1)
+    ctx.explore(st.lists(step, min_size=2, max_size=5), lambda c: execute_seq(ctx, c), ctx.scale(1000, 40000), seed_offset=1)
+    ctx.explore(long_path(13 if quick else 17), lambda c: execute_long(ctx, c), ctx.scale(500, 6000), seed_offset=2)
+    try:
+        ctx.explore(conc_st, lambda c: execute_conc(ctx, c), ctx.scale(1200, 40000), seed_offset=3)
+    finally:
+        S.shutdown_pool()
+    ctx.explore(stress_st, lambda c: execute_stress(ctx, c), ctx.scale(12, 400), shrink=False, seed_offset=4)
 
 
 def replay(ctx, case):
     if "history" in case:
         execute_seq(ctx, [("raw", p) for p in case["history"]])
+    elif "long" in case:
+        execute_long(ctx, case["long"])
+    elif "threads" in case:
+        try:
+            execute_conc(ctx, case)
+        finally:
+            S.shutdown_pool()
+    elif "stress" in case:
+        execute_stress(ctx, case)
     else:
         execute(ctx, case["path"])
